@@ -86,32 +86,30 @@ def _chunks(xs, n):
 
 
 def _run_blocks(cmd, sources, timeout):
-    """feed hex lines, split the output into END-terminated blocks; one block per source.
-    If the process dies (abort, stack overflow) the remaining sources are retried one by one."""
-    inp = "".join(hexsrc(s) + "\n" for s in sources).encode()
-    try:
-        p = subprocess.run(cmd, input=inp, stdout=subprocess.PIPE, stderr=subprocess.PIPE, timeout=timeout,
-                           preexec_fn=_limits)
-        out = p.stdout.decode("utf-8", errors="replace")
-        rc = p.returncode
-    except subprocess.TimeoutExpired as e:
-        out = (e.stdout or b"").decode("utf-8", errors="replace")
-        rc = "timeout"
-    blocks = out.split("END\n")
-    tail = blocks.pop()
-    if len(blocks) == len(sources) and tail == "":
-        return blocks
-    # the process died part-way: keep complete blocks, mark the next source, retry the rest
-    done = blocks
-    i = len(done)
-    if i >= len(sources):
-        return done[:len(sources)]
-    if len(sources) == 1:
-        return [f"DIED {rc}\n"]
-    res = list(done)
-    res += _run_blocks(cmd, [sources[i]], timeout)
-    if i + 1 < len(sources):
-        res += _run_blocks(cmd, sources[i + 1:], timeout)
+    """feed hex lines, split the output into END-terminated blocks; one block per source.  A source on which the
+    process hangs or dies is marked (`DIED …`) and the rest of the chunk continues after it."""
+    res = []
+    start = 0
+    while start < len(sources):
+        part = sources[start:]
+        inp = "".join(hexsrc(s) + "\n" for s in part).encode()
+        budget = max(6.0, min(timeout, 3.0 + 0.02 * len(part)))
+        try:
+            p = subprocess.run(cmd, input=inp, stdout=subprocess.PIPE, stderr=subprocess.PIPE, timeout=budget,
+                               preexec_fn=_limits)
+            out = p.stdout.decode("utf-8", errors="replace")
+            rc = p.returncode
+        except subprocess.TimeoutExpired as e:
+            out = (e.stdout or b"").decode("utf-8", errors="replace")
+            rc = "timeout"
+        blocks = out.split("END\n")
+        blocks.pop()
+        blocks = blocks[:len(part)]
+        res += blocks
+        if len(blocks) == len(part):
+            break
+        res.append(f"DIED {rc}\n")
+        start += len(blocks) + 1
     return res
 
 
@@ -161,26 +159,30 @@ def _parse_run(out, nonce, n):
 
 
 def _run_cases(cmd_fn, sources, timeout):
-    nonce = "%016x" % random.getrandbits(64)
-    cmd = cmd_fn(nonce)
-    inp = "".join(hexsrc(s) + "\n" for s in sources).encode()
-    try:
-        p = subprocess.run(cmd, input=inp, stdout=subprocess.PIPE, stderr=subprocess.PIPE, timeout=timeout,
-                           preexec_fn=_limits)
-        out = p.stdout.decode("utf-8", errors="replace")
-        rc = p.returncode
-    except subprocess.TimeoutExpired as e:
-        out = (e.stdout or b"").decode("utf-8", errors="replace")
-        rc = "timeout"
-    res = _parse_run(out, nonce, len(sources))
-    if len(res) == len(sources):
-        return res
-    i = len(res)
-    if len(sources) == 1:
-        return [{"stdout": "", "status": f"died:{rc}", "stderr": ""}]
-    res += _run_cases(cmd_fn, [sources[i]], timeout)
-    if i + 1 < len(sources):
-        res += _run_cases(cmd_fn, sources[i + 1:], timeout)
+    """run a chunk; a case that hangs or kills the process is marked and the rest of the chunk continues after it"""
+    res = []
+    start = 0
+    while start < len(sources):
+        part = sources[start:]
+        nonce = "%016x" % random.getrandbits(64)
+        cmd = cmd_fn(nonce)
+        inp = "".join(hexsrc(s) + "\n" for s in part).encode()
+        budget = max(6.0, min(timeout, 3.0 + 0.05 * len(part)))
+        try:
+            p = subprocess.run(cmd, input=inp, stdout=subprocess.PIPE, stderr=subprocess.PIPE, timeout=budget,
+                               preexec_fn=_limits)
+            out = p.stdout.decode("utf-8", errors="replace")
+            rc = p.returncode
+        except subprocess.TimeoutExpired as e:
+            out = (e.stdout or b"").decode("utf-8", errors="replace")
+            rc = "timeout"
+        got = _parse_run(out, nonce, len(part))
+        res += got
+        if len(got) == len(part):
+            break
+        # the case after the last complete one hung (rc == "timeout") or took the process down
+        res.append({"stdout": "", "status": "timeout" if rc == "timeout" else f"died:{rc}", "stderr": ""})
+        start += len(got) + 1
     return res
 
 
